@@ -66,7 +66,7 @@ m('M35b-shape-first-round-only', ['C20'], (FU, "\tfor _, queryRound := range que
 m('M35c-no-interp-arity-guard', ['C20'], (F, "\tif (len(evals)) != arity {\n\t\tpanic(\"len(evals) != arity\")\n\t}\n", "\t_ = arity\n"))
 m('M35d-no-indices-guard', ['C20'], (F, "\tif len(friChallenges.FriQueryIndices) != len(friProof.QueryRoundProofs) {\n\t\tpanic(fmt.Sprintf(\n\t\t\t\"Number of query indices (%d) should equal number of query round proofs (%d)\",\n\t\t\tlen(friChallenges.FriQueryIndices),\n\t\t\tlen(friProof.QueryRoundProofs),\n\t\t))\n\t}\n", ""))
 m('M35e-cap16-guard-and', ['C20'], (F, "if len(capIndexBits) != 4 || len(merkleCap) != 16 {", "if len(capIndexBits) != 4 && len(merkleCap) != 16 {"))
-m('M41-no-hiding-refusal', ['C20'], ('types/common_data.go', "\tif raw.FriParams.Hiding {\n\t\tpanic(\"Circuit has hiding enabled, which is not supported\")\n\t}\n", ""))
+m('M41-no-hiding-refusal', ['C20', 'C18'], ('types/common_data.go', "\tif raw.FriParams.Hiding {\n\t\tpanic(\"Circuit has hiding enabled, which is not supported\")\n\t}\n", ""))
 m('M31-no-limb-width-check', ['C03'], (U, "\t\t\tglChip.RangeCheckWithMaxBits(slicePub[i], 32)\n", ""), (U, "\tglChip := gl.New(api)\n", ""))
 m('M31b-limb-width-64', ['C03'], (U, "glChip.RangeCheckWithMaxBits(slicePub[i], 32)", "glChip.RangeCheckWithMaxBits(slicePub[i], 64)"))
 m('M31c-assert-3-values', ['C03'], (U, "\tfor j := 0; j < 4; j++ {\n\t\tpublicInputLimb", "\tfor j := 0; j < 3; j++ {\n\t\tpublicInputLimb"))
@@ -87,8 +87,32 @@ m('R15-guard-positive-form-pis', [], (U, "\tif len(publicInputs) != 16 {\n\t\tre
 m('R16-challenger-local-rename', [], (V, "\tvar circuitDigest = verifierData.CircuitDigest\n\n\tchallenger.ObserveBN254Hash(circuitDigest)", "\tchallenger.ObserveBN254Hash(verifierData.CircuitDigest)"))
 m('R17-packing-muladd-order', [], (U, "publicInputLimb = api.Add(pubU32, api.Mul(pubByte, publicInputLimb))", "publicInputLimb = api.Add(api.Mul(publicInputLimb, pubByte), pubU32)"))
 
+# ---- C18
+G = 'plonk/gates/'
+m('M36-regex-arith-loose', ['C18'], (G+'arithmetic_gate.go', 'regexp.MustCompile("ArithmeticGate { num_ops: (?P<numOps>[0-9]+) }")', 'regexp.MustCompile("ArithmeticGate.*num_ops: (?P<numOps>[0-9]+)")'))
+m('M36b-regex-reducing-prefix', ['C18'], (G+'reducing_gate.go', 'regexp.MustCompile("ReducingGate { num_coeffs: (?P<numCoeffs>[0-9]+) }")', 'regexp.MustCompile("Reducing.*Gate { num_coeffs: (?P<numCoeffs>[0-9]+) }")'))
+m('M37-coset-any-degree', ['C18'], (G+'coset_interpolation_gate.go', "PhantomData<plonky2_field::goldilocks_field::GoldilocksField> }<D=2>`)", "PhantomData<plonky2_field::goldilocks_field::GoldilocksField> }`)"))
+m('M38-unknown-gate-noop', ['C18'], (G+'gates.go', '\tpanic(fmt.Sprintf("Unknown gate ID %s", gateId))', '\tfmt.Printf("Unknown gate ID %s\\n", gateId)\n\treturn NewNoopGate()'))
+m('M39-swap-bits-copies', ['C18'], (G+'random_access_gate.go', "\treturn NewRandomAccessGate(bitsInt, numCopiesInt, numExtraConstantsInt)", "\treturn NewRandomAccessGate(numCopiesInt, bitsInt, numExtraConstantsInt)"))
+m('M40-ignore-atoi-error', ['C18'], (G+'constant_gate.go', "\tnumConstsInt, err := strconv.Atoi(numConsts)\n\tif err != nil {\n\t\tpanic(\"Invalid num_consts field in ConstantGate\")\n\t}\n", "\tnumConstsInt, _ := strconv.Atoi(numConsts)\n"))
+m('M40b-exp-no-degree-check', ['C18'], (G+'exponentiation_gate.go', "\tif baseInt != gl.D {\n\t\tpanic(\"Expected base field in ExponentiationGate to equal gl.D\")\n\t}\n", "\t_ = baseInt\n"))
+m('M40c-noop-loose', ['C18'], (G+'noop_gate.go', 'regexp.MustCompile("NoopGate")', 'regexp.MustCompile("Gate")'))
+m('R18-anchor-regex', [], (G+'constant_gate.go', 'regexp.MustCompile("ConstantGate { num_consts: (?P<numConsts>[0-9]+) }")', 'regexp.MustCompile("ConstantGate \\\\{ num_consts: (?P<numConsts>[0-9]+) \\\\}")'))
+
+# ---- C19
+TD = 'types/deserialize.go'
+VD = 'variables/deserialize.go'
+m('M42-ignore-unmarshal-error', ['C19'], (TD, "\tvar raw VerifierOnlyCircuitDataRaw\n\tif err := json.Unmarshal(data, &raw); err != nil {\n\t\tpanic(err)\n\t}\n\treturn raw", "\tvar raw VerifierOnlyCircuitDataRaw\n\t_ = json.Unmarshal(data, &raw)\n\treturn raw"))
+m('M43-raw-field-int64', ['C19'], (TD, "\t\t\tPowWitness uint64 `json:\"pow_witness\"`", "\t\t\tPowWitness int64 `json:\"pow_witness\"`"), (VD, "openingProof.PowWitness = gl.NewVariable(openingProofRaw.PowWitness)", "openingProof.PowWitness = gl.NewVariable(uint64(openingProofRaw.PowWitness))"), (VD, "\t\tFinalPoly  struct{ Coeffs [][]uint64 }\n\t\tPowWitness uint64\n", "\t\tFinalPoly  struct{ Coeffs [][]uint64 }\n\t\tPowWitness int64\n"), (VD, "\tFinalPoly struct {\n\t\tCoeffs [][]uint64\n\t}\n\tPowWitness uint64\n", "\tFinalPoly struct {\n\t\tCoeffs [][]uint64\n\t}\n\tPowWitness int64\n"))
+m('M44-setstring-base0', ['C19'], (VD, "\t\tcapBigInt, _ := new(big.Int).SetString(merkleCapRaw[i], 10)", "\t\tcapBigInt, _ := new(big.Int).SetString(merkleCapRaw[i], 0)"))
+m('M45-default-on-parse-failure', ['C19'], (VD, "\tcircuitDigestBigInt, _ := new(big.Int).SetString(raw.CircuitDigest, 10)\n", "\tcircuitDigestBigInt, ok := new(big.Int).SetString(raw.CircuitDigest, 10)\n\tif !ok {\n\t\tcircuitDigestBigInt = big.NewInt(0)\n\t}\n"))
+m('M45b-zs-from-zsnext', ['C19'], (VD, "\t\tPlonkZs:         gl.Uint64ArrayToQuadraticExtensionArray(openingSetRaw.PlonkZs),", "\t\tPlonkZs:         gl.Uint64ArrayToQuadraticExtensionArray(openingSetRaw.PlonkZsNext),"))
+m('M45c-copy-from-1', ['C19'], ('goldilocks/utils.go', "\tfor i := 0; i < len(input); i++ {\n\t\toutput = append(output, NewQuadraticExtensionVariable(NewVariable(input[i][0]), NewVariable(input[i][1])))", "\tfor i := 1; i < len(input); i++ {\n\t\toutput = append(output, NewQuadraticExtensionVariable(NewVariable(input[i][0]), NewVariable(input[i][1])))"))
+m('M45d-siblings-shifted', ['C19'], (VD, "\t\thashBigInt, _ := new(big.Int).SetString(rawHashes[i], 10)", "\t\thashBigInt, _ := new(big.Int).SetString(rawHashes[len(rawHashes)-1-i], 10)"))
+m('M45e-merkleproofraw-swallow', ['C19'], (TD, "\tif err := json.Unmarshal(data, &siblings); err != nil {\n\t\tpanic(err)\n\t}\n", "\tif err := json.Unmarshal(data, &siblings); err != nil {\n\t\treturn nil\n\t}\n"))
+
 # ---- behaviour-preserving refactors: must stay silent on every property
-ALL = ['C01', 'C03', 'C04', 'C05', 'C06', 'C07', 'C08', 'C09', 'C11', 'C12', 'C13', 'C14', 'C16', 'C17', 'C20']
+ALL = ['C01', 'C03', 'C04', 'C05', 'C06', 'C07', 'C08', 'C09', 'C11', 'C12', 'C13', 'C14', 'C16', 'C17', 'C18', 'C19', 'C20']
 m('R02-inline-assertLeadingZeros', [], (F, "\tf.assertLeadingZeros(friChallenges.FriPowResponse, f.friParams.Config)\n", "\tf.gl.RangeCheckWithMaxBits(friChallenges.FriPowResponse, 64-f.friParams.Config.ProofOfWorkBits)\n"))
 m('R03-indexed-loops-sweep', [], (V, "\tfor _, wire := range proof.Openings.Wires {\n\t\tc.glChip.RangeCheckQE(wire)\n\t}", "\tfor i := 0; i < len(proof.Openings.Wires); i++ {\n\t\tc.glChip.RangeCheckQE(proof.Openings.Wires[i])\n\t}"))
 m('R04-split-ext-assert', [], (P, "\t\tglApi.AssertIsEqualExtension(vanishingPolysZeta[i], prod)", "\t\tglApi.AssertIsEqual(vanishingPolysZeta[i][0], prod[0])\n\t\tglApi.AssertIsEqual(vanishingPolysZeta[i][1], prod[1])"))
